@@ -266,6 +266,13 @@ func registerLocksetNatives(in *Interp) {
 		}
 		return nil
 	}
+	// vRealBuffer(true): bytes.Buffer's Write/WriteByte/WriteString/Grow run from the
+	// library's source (real capacity growth, real reuse of the storage that slices
+	// handed out by Next/Bytes alias) instead of the re-allocating model
+	in.intrinsicsExtra["vRealBuffer"] = func(in *Interp, args []Value) Value {
+		in.realBuffer = args[0].(*Term) == in.tb.True
+		return nil
+	}
 	in.intrinsicsExtra["vIsNative"] = func(in *Interp, args []Value) Value { return in.tb.False }
 	in.intrinsicsExtra["vAssertNoLocksetConflict"] = func(in *Interp, args []Value) Value {
 		i, j := int(args[0].(*Term).V), int(args[1].(*Term).V)
